@@ -844,9 +844,28 @@ def r14d(P, R):
                P.fn(PRN + "operation_type_printer::print_types_for_operation_document")]
     scope = [P.fns[p] for p in P.reachable(entries) if not P.fns[p].derived]
     ALLOWED = {"nitrogql_ast::current_file::CURRENT_FILE_OF_POS": "file index for positions; does not select names or exports"}
+    # what this property is about: state that holds (or was computed from) the naming/export options or the configuration.  State
+    # holding something else (a per-document memo of spreads, an interner) may break other properties, not the agreement of names.
+    naming_types = {BASEOPT, CONFIG_T} | {a.path for a in P.adts.values() if a.path.startswith(CFG)}
+    naming_types |= {a.path for a in P.adts.values() if a.kind == "Struct" and any(_adt_of_type(P, t) == BASEOPT for t in a.field_types().values())}
+    from prov import canon_params
+
+    def about_naming(f, h, missing):
+        ty = norm(str(holders[h][0]))
+        if any(t in ty for t in naming_types):
+            return True
+        names = canon_params(f)
+        for m in missing or []:
+            if m in names and names.index(m) < len(f.sig_inputs) and any(t in f.sig_inputs[names.index(m)] for t in naming_types):
+                return True
+        return False
     bad = 0
     for f, h, missing, key in global_state_uses(P, scope, holders):
         if h in ALLOWED:
+            continue
+        if not about_naming(f, h, missing):
+            R.holds("R14-d", "state:%s" % short(h), "%s uses the global %s, which neither holds nor was computed from the naming/export options "
+                    "or the configuration (other properties decide whether the documents stay right)" % (f.path, h), loc=f.loc())
             continue
         bad += 1
         if missing:
@@ -856,7 +875,7 @@ def r14d(P, R):
         else:
             R.undecided("R14-d", "state:%s" % short(h), "%s uses global state %s; its effect on the output is not decided" % (f.path, h), loc=f.loc())
     if not bad:
-        R.holds("R14-d", "stateless", "%d functions reachable from the two printers touch no global state holder" % len(scope))
+        R.holds("R14-d", "stateless", "%d functions reachable from the two printers keep no naming/export option or configuration in global state" % len(scope))
 
 
 RULES = [("R14-a", r14a), ("R14-b", r14b), ("R14-c", r14c), ("R14-d", r14d)]
